@@ -777,3 +777,24 @@ SPECS += [
     ("C01", "module-without-a-file-not-refused", "rope/refactor/rename.py",
      remove_stmt_where("Rename.get_changes", stmt_is("if resource is None")), ["R01.21"]),
 ]
+
+# scans over the leading dots (fix 51d26d6, 08863cc)
+def _unbound(func):
+    def edit(tree):
+        f = find_func(tree, func)
+        if f is None:
+            return False
+        for w in ast.walk(f):
+            if isinstance(w, ast.While) and isinstance(w.test, ast.BoolOp) and isinstance(w.test.op, ast.And) and len(w.test.values) == 2 \
+                    and "len(" in ast.unparse(w.test.values[0]) and "'.'" in ast.unparse(w.test.values[1]):
+                w.test = w.test.values[1]
+                return True
+        return False
+    return edit
+
+
+SPECS += [
+    ("C20", "dots-scan-without-a-bound", "rope/contrib/codeassist.py", _unbound("_PythonCodeAssist._find_module"), ["R20.18"]),
+    ("C20", "dots-scan-without-a-bound-in-the-name-finder", "rope/base/evaluate.py", _unbound("ScopeNameFinder._find_module"), ["R20.18"]),
+    ("C09", "dots-scan-without-a-bound-in-the-name-finder", "rope/base/evaluate.py", _unbound("ScopeNameFinder._find_module"), ["R09.13"]),
+]
